@@ -144,6 +144,18 @@ func (a AlterTableOperation) Children() []Node {
 	if a.AlterColumnOp != nil {
 		children = append(children, a.AlterColumnOp)
 	}
+	// the names an operation refers to are nodes of the tree as well
+	for _, id := range []*Ident{a.ProjectionName, a.PartitionName, a.OldColumnName, a.NewColumnName, a.ConstraintName, a.OldName, a.NewName, a.ColumnName} {
+		if id != nil {
+			children = append(children, id)
+		}
+	}
+	if a.TableName.Name != "" {
+		children = append(children, a.TableName)
+	}
+	if a.NewTableName.Name != "" {
+		children = append(children, a.NewTableName)
+	}
 	return children
 }
 
